@@ -275,4 +275,6 @@ def rule_zero(repo, tier):
 
 def rules(repo, tier):
     from ..stale import rule_stale
-    return [rule_status(repo, tier), rule_lstsq(repo, tier), rule_zero(repo, tier), rule_stale(repo, 'C10.STALE', [(SOLVER, 'CG.forward')])]
+    from .sparse_c10 import rule_idx, rule_dispatch
+    return [rule_status(repo, tier), rule_lstsq(repo, tier), rule_zero(repo, tier), rule_stale(repo, 'C10.STALE', [(SOLVER, 'CG.forward')]),
+            rule_idx(repo, tier), rule_dispatch(repo, tier)]
